@@ -2004,3 +2004,40 @@ def rule_divceil_u64(text):
         a, b, new = hit
         apps.append(_app("R-div", text, a, b, new, "verified helper: ceil(a/b) on u64, requires b > 0"))
         text = text[:a] + new + text[b:]
+
+
+def rule_initmisc(text):
+    """FeoxStore construction (init.rs)"""
+    apps = []
+    ws = r"\s*"
+    table = [
+        (r"matches!\(" + ws + r"&open_mode," + ws + r"OpenMode::ReadOnly\(_\)" + ws + r"\)", "(match &open_mode { OpenMode::ReadOnly(_) => true, _ => false })", "R-matches", "definition of matches!"),
+        (r"HashMap::with_capacity_and_hasher\(" + ws + r"1" + ws + r"<<" + ws + r"config\.hash_bits," + ws + r"hasher\.clone\(\)\)", "new_hash_index(config.hash_bits, hasher.clone())", "R-handle", "the hash index constructor"),
+        (r"Arc::new\(RwLock::new\(FreeSpaceManager::new\(\)\)\)", "FreeSpaceLock::new()", "R-handle", "a new allocator behind its lock"),
+        (r"Arc::new\(RwLock::new\(metadata\)\)", "MetadataLock::new(metadata)", "R-handle", "the metadata block behind its lock"),
+        (r"Arc::new\(Statistics::new\(\)\)", "StatsH::new()", "R-handle", "new statistics"),
+        (r"Arc::new\(crate::core::cache::ClockCache::new\(stats\.clone\(\)\)\)", "Arc::new(CacheH::new(stats.clone()))", "R-handle", "the read cache constructor"),
+        (r"Arc::new\(SkipMap::new\(\)\)", "TreeIndex::new()", "R-handle", "the ordered index constructor"),
+        (r"Arc::new\(RwLock::new\(None\)\)", "SweeperSlot::new()", "R-handle", "the (empty) sweeper slot"),
+        (r"#\[cfg\(unix\)\]" + ws + r"device_fd:", "device_fd:", "R-cfg", "cfg(unix) holds on this platform"),
+        (r"\(num_cpus::get\(\)" + ws + r"/" + ws + r"2\)\.max\((\w+)\)", r"max_usize(cpu_count() / 2, \1)", "R-arith", "definition of usize::max; num_cpus::get() is an arbitrary usize"),
+        (r"enable_ttl:" + ws + r"config\.enable_ttl," + ws + r"\}", "enable_ttl: config.enable_ttl,\n            steps: Ghost(Seq::empty()),\n        }", "R-ghost", "ghost field: the (empty) trace of construction steps"),
+        (r"store\.disk_io\.as_ref\(\)\.ok_or\(FeoxError::NoDevice\)\?", "(match &store.disk_io { Some(d_) => d_, None => { return Err(FeoxError::NoDevice); } })", "R-ookor", "definition of Option::as_ref().ok_or(e)?"),
+    ]
+    for pat, rep, rname, why in table:
+        n = 0
+        while n < 8:
+            n += 1
+            mm = re.search(pat, text)
+            if not mm:
+                break
+            new = mm.expand(rep)
+            if new == text[mm.start():mm.end()]:
+                break
+            apps.append(_app(rname, text, mm.start(), mm.end(), new, why))
+            text = text[:mm.start()] + new + text[mm.end():]
+    return text, apps
+
+
+def rule_sig_init(text):
+    return text, []
